@@ -87,6 +87,18 @@ func checkC09(c CaseVarCase) Outcome {
 			return Satisfies(s+"+", []string{o})
 		}},
 	}
+	if !c.IsExc {
+		// other versions of the id's family, with and without '+', on either side
+		for _, rel := range Tbl().Relatives(c.ID) {
+			for _, r := range []string{rel, rel + "+"} {
+				r := r
+				probes = append(probes,
+					probe{"as allowed entry against " + r, func(s string) SatRes { return Satisfies(r, []string{s}) }},
+					probe{"as expression against " + r, func(s string) SatRes { return Satisfies(s, []string{r}) }},
+					probe{"with '+' as allowed entry against " + r, func(s string) SatRes { return Satisfies(r, []string{s + "+"}) }})
+			}
+		}
+	}
 	for _, p := range probes {
 		ro, rv := p.f(o), p.f(v)
 		if ro.Panic != "" || rv.Panic != "" {
